@@ -29,6 +29,15 @@ def run(an: Analysis, rep):
     rep.rule("R13.4", "jump target index taken from the same sorted list", 2)
     from .common import purity
     rep.run(purity, an, rep, "R13.P", ["from_code"])
+    rep.run(block_rules, an, rep)
+    from .common import SharedRules
+    from . import c02
+    rep.run(c02.jump_rules, an, SharedRules(rep, "R13.J", "decoded jump targets are the offsets CPython jumps to (shared with C02's R02.3/R02.5): blocks start exactly there"), False)
+    rep.stats.update(an.stats([an.interp("from_code")[0]]))
+    rep.assumptions += ["compiler output never jumps into the middle of an EXTENDED_ARG sequence (CPython's assembler targets the first unit)"]
+
+
+def block_rules(an: Analysis, rep):
     it, _ = an.interp("from_code")
     pf = find_parser(an)
     cons = None
@@ -55,19 +64,39 @@ def run(an: Analysis, rep):
         addcall = adds[0]
         T = addcall.func.value.id
     w = loc(f.module, f.node)
-    # R13.1 initial value
+    # R13.1: the block-start list is {0} U {jump targets}, sorted, without repetition - decided on the list the block loop uses, so that
+    # `T = {0}; sorted(T)` and `T = set(); sorted({0} | T)` are the same fact and `[0, *sorted(T)]` (0 twice when something jumps to 0) is not
     inits = [n for n in ast.walk(f.node) if isinstance(n, ast.Assign) and any(isinstance(t, ast.Name) and t.id == T for t in n.targets)]
     ok = False
+    w = loc(f.module, f.node)
     detail = f"`{T}` has {len(inits)} assignments"
+    listdef = None
+    for n in ast.walk(f.node):
+        if isinstance(n, ast.Assign) and isinstance(n.targets[0], ast.Name) and any(isinstance(x, ast.Name) and x.id == T for x in ast.walk(n.value)) \
+                and any(isinstance(c, ast.Compare) and isinstance(c.ops[0], ast.In) and isinstance(c.comparators[0], ast.Name) and c.comparators[0].id == n.targets[0].id for c in ast.walk(f.node)):
+            listdef = n
     if len(inits) == 1:
-        try:
-            val = feval(inits[0].value, {"set": set})
-            ok = set(val) == {0}
-            detail = f"`{norm_src(inits[0])}`" + ("" if ok else f" evaluates to {set(val)!r}, not {{0}}: the first instruction does not open a block (or spurious blocks are opened)")
-        except Exception:
-            detail = f"initial value `{norm_src(inits[0].value)}` is not a constant set"
         w = loc(f.module, inits[0])
-    rep.add("R13.1", f"{f.qual}::target set starts as {{0}}", ok, w, detail)
+        try:
+            init = set(feval(inits[0].value, {"set": set, "frozenset": frozenset}))
+            bad = []
+            expr = listdef.value if listdef is not None else ast.Name(T, ast.Load())
+            for X in (set(), {4, 10}, {0, 4, 10}, {0}):
+                got = feval(expr, {T: frozenset(init | X), "sorted": sorted, "set": set, "list": list, "frozenset": frozenset})
+                got = list(got) if not isinstance(got, (set, frozenset)) else got
+                want = sorted({0} | X)
+                if isinstance(got, (set, frozenset)):
+                    if set(got) != set(want):
+                        bad.append(f"jump targets {sorted(X)}: block starts {sorted(got)}, expected {want}")
+                elif got != want:
+                    bad.append(f"jump targets {sorted(X)}: block-start list {got}, expected {want}")
+            ok = not bad
+            detail = (f"`{norm_src(inits[0])}`" + (f" and `{norm_src(listdef)}`" if listdef is not None else "") + " give exactly [0] + the jump targets, sorted and without repetition") if ok else \
+                (f"`{norm_src(inits[0])}`" + (f" with `{norm_src(listdef)}`" if listdef is not None else "") + ": " + "; ".join(bad[:2]) +
+                 " - the first instruction does not open a block, or an offset appears twice so every later block index is shifted")
+        except Exception as ex:
+            detail = f"block-start list not evaluable ({ex})"
+    rep.add("R13.1", f"{f.qual}::block starts are [0] + jump targets, sorted, unique", ok, w, detail)
     # R13.2 other writes
     others = []
     for n in ast.walk(f.node):
@@ -99,13 +128,9 @@ def run(an: Analysis, rep):
                 f"`{norm_src(X)}` holds the operand decoder's result ({len(jumps)} abstract Jump object(s)) and is stored as Instruction.arg" if jumps and used_as_arg
                 else f"`{norm_src(X)}` is not the operand stored in the instruction")
     # --- second loop
-    sorted_assign = None
-    for n in ast.walk(f.node):
-        if isinstance(n, ast.Assign) and isinstance(n.value, ast.Call) and isinstance(n.value.func, ast.Name) and n.value.func.id in ("sorted", "list", "tuple") \
-                and n.value.args and isinstance(n.value.args[0], ast.Name) and n.value.args[0].id == T and isinstance(n.targets[0], ast.Name):
-            sorted_assign = n
-    S = sorted_assign.targets[0].id if sorted_assign is not None else T
-    is_sorted = sorted_assign is not None and sorted_assign.value.func.id == "sorted" and len(sorted_assign.value.args) == 1 and not sorted_assign.value.keywords
+    sorted_assign = listdef
+    S = listdef.targets[0].id if listdef is not None else T
+    is_sorted = ok  # established by evaluation above: the list is sorted and free of repetitions
     loops = [n for n in f.node.body if isinstance(n, ast.For) and n is not loop1 and n.lineno > loop1.lineno]
     loop2 = None
     for lp in loops:
@@ -150,24 +175,19 @@ def run(an: Analysis, rep):
             f"`{norm_src(app[-1])}` is unconditional and follows block creation: no block is empty and the blocks partition the sequence in order" if ok_a
             else "the instruction is not appended unconditionally after block creation: blocks can be empty or instructions dropped")
     rep.add("R13.3", f"{f.qual}::membership list is the target set", S == T or sorted_assign is not None, loc(f.module, sorted_assign or loop2),
-            f"`{S}` = {norm_src(sorted_assign.value) if sorted_assign else T}", nontrivial=False)
+            f"`{S}` = {norm_src(sorted_assign.value) if sorted_assign is not None else T}", nontrivial=False)
     # R13.4
     idx = [n for n in ast.walk(loop2) if isinstance(n, ast.Call) and isinstance(n.func, ast.Attribute) and n.func.attr == "index"]
     ok_i = len(idx) == 1 and isinstance(idx[0].func.value, ast.Name) and idx[0].func.value.id == S and is_sorted \
         and isinstance(idx[0].args[0], ast.Attribute) and idx[0].args[0].attr == "target"
     rep.add("R13.4", f"{f.qual}::target replaced by its index in the sorted target list", bool(ok_i), loc(f.module, idx[0]) if idx else loc(f.module, loop2),
-            f"`{norm_src(idx[0])}` on `{S} = sorted({T})`: target k is the k-th block" if ok_i else
+            f"`{norm_src(idx[0])}` on the sorted block-start list `{S}`: target k is the k-th block" if ok_i else
             f"jump targets are not replaced by their position in the sorted target list that drives block creation" + ("" if is_sorted else f" (`{S}` is not sorted({T}))"))
     kw = [k for k in ast.walk(loop2) if isinstance(k, ast.keyword) and k.arg == "target"]
     ok_k = bool(kw) and idx and any(n is idx[0] for n in ast.walk(kw[0].value)) and any(
         isinstance(g[0], ast.Call) and "Jump" in {x.id for x in ast.walk(g[0]) if isinstance(x, ast.Name)} for g in guards_of(f.module, f, parent_map(f.module)[id(_stmt_of(f, kw[0]))] if False else _stmt_of(f, kw[0])))
     rep.add("R13.4", f"{f.qual}::only jump operands are rewritten", bool(ok_k), loc(f.module, kw[0].value) if kw else loc(f.module, loop2),
             "the rewrite is guarded by isinstance(arg, Jump) and stores the index as Jump.target" if ok_k else "jump rewrite not recognised")
-    from .common import SharedRules
-    from . import c02
-    rep.run(c02.jump_rules, an, SharedRules(rep, "R13.J", "decoded jump targets are the offsets CPython jumps to (shared with C02's R02.3/R02.5): blocks start exactly there"), False)
-    rep.stats.update(an.stats([it]))
-    rep.assumptions += ["compiler output never jumps into the middle of an EXTENDED_ARG sequence (CPython's assembler targets the first unit)"]
 
 
 def _stmt_of(f, node):
